@@ -259,11 +259,12 @@ func (fc *FuncContract) mayNil(name string) bool {
 // for postconditions, which are independent of each other).
 func (vc *VC) obligeNoAssume(kind, note, reach, goal string, tags ...string) *Obligation {
 	full := implies(reach, goal)
+	extra := vc.instantiateFor(full)
 	idx := vc.counts[kind]
 	vc.counts[kind]++
 	o := &Obligation{
 		Name: fmt.Sprintf("%s::%s[%d]", vc.Name, kind, idx), Kind: kind, Goal: full, Prefix: len(vc.lines),
-		Tags: tags, Note: note, VC: vc, Bounded: vc.Bounded, Replay: vc.replay,
+		Tags: tags, Note: note, VC: vc, Bounded: vc.Bounded, Replay: vc.replay, Extra: extra,
 	}
 	vc.obls = append(vc.obls, o)
 	return o
